@@ -22,7 +22,10 @@ var required = []string{
 	"content:transition:Transition",
 	"direct:text:Text:ok", "direct:oracle:Proto:ok", "direct:oracle:FullABI:ok", "direct:oracle:PartialABI:ok",
 	"direct:feeds:FixedPointABI:ok", "direct:feeds:TickABI:ok", "direct:repeat-in-same-block:distinct-message",
-	"internal-rejected:tunnel", "internal-rejected:transition", "content-kind:internal", "content-kind:user",
+	"internal-rejected:tunnel", "internal-rejected:transition",
+	"internal-rejected:tunnel:sender=authority", "internal-rejected:transition:sender=authority",
+	"internal-rejected:tunnel:sender=bandtss-module", "internal-rejected:transition:sender=bandtss-module",
+	"internal-rejected:tunnel:sender=tss-member", "internal-rejected:transition:sender=tss-member", "content-kind:internal", "content-kind:user",
 	"tunnel:FixedPointABI:ok", "tunnel:TickABI:ok", "tunnel:packet-equals-feed-prices-at-request-time",
 	"transition:ok",
 }
@@ -46,8 +49,8 @@ func run(r *engine.Run, only string) {
 		"os{0,1,max} x ask{0,max} x min{0,max} x rid{1,2,max} x ans{0,max} x request_time{0,-1,max} x resolve_time{0,max} x status{0..3} (thorough + int64/int32 extremes) x 3 encoders; " +
 		"feeds lists of 0..2 signals from 4 ids (thorough 6 ids and lists of 3) x {absent,0,1,1e9,1000099999,2^64-1} x 2 encoders x block times {0,now,9999-12-31} (thorough +1); " +
 		"tunnel packets seq{0,1,max} x 25 price lists x created_at{0,1,-1,now,max} x 2 encoders; transitions 3 keys x 4 times; unknown encoders and >32-byte signal ids executed and labelled; " +
-		"real MsgRequestSignature: 2 senders x 8 memos (0..101 chars, case/space variants) x 4 block times x signing ids {1,2,2^64-1} x 11 contents, plus the same request twice in one block; " +
-		"users requesting internal kinds: 54 tunnel packets + 13 transitions + zero values x 3 senders x 2 memos, and every registered Content implementation; " +
+		"real MsgRequestSignature: 3 senders (2 users, the module authority) x 8 memos (0..101 chars, case/space variants) x 4 block times x signing ids {1,2,2^64-1} x 11 contents, plus the same request twice in one block; " +
+		"users requesting internal kinds: 54 tunnel packets + 13 transitions + zero values x 6 senders (2 users, validator, module authority, bandtss module account, funded tss member; each must fail with ErrContentNotAllowed and leave the tss and bandtss signing counts unchanged) x 2 memos, and every registered Content implementation; " +
 		"real tunnel create/fund/activate/trigger: 14^2 (thorough 15^2) destination chain x contract strings (incl. empty -> rejected, case-only / space variants, EIP-55 / lower / base58 addresses, ETH/eth) x tunnel ids {1,2,2^64-1} x 2 encoders x 3 feed states x {(now,id 1),(9999-12-31,id 2^64-1)}, plus an upper-case source chain id for tunnel id 1; signed prefix message[0:32] of every accepted request kept in an injectivity set keyed by the stored route (source chain, tunnel id, destination chain, contract) resp. (chain, requester, memo); " +
 		"real group transitions with complete DKG: 4 (thorough 7) with exec offsets 1s..7d and signing ids {next,2,2^64-1}; " +
 		"ticks: all 524287 ticks (integer boundary, boundary-1, midpoint to the next boundary), every price 1.." + dense + ", 2^64-4096..2^64-1, 2^k+-2, 10^k+-1"
